@@ -604,7 +604,9 @@ func (a *dynamicArray) getStr(p unistring.String, receiver Value) Value {
 		return intToValue(int64(a.a.Len()))
 	}
 	if idx, ok := strToInt(p); ok {
-		return a.a.Get(idx)
+		if v := a.a.Get(idx); v != nil {
+			return v
+		}
 	}
 	return a.getParentStr(p, receiver)
 }
